@@ -32,6 +32,8 @@ GeoFails(e) ==
   \cup (IF \E a \in 1..n : ~Close(o.irr4[a], (CosLat4(e.lat[a]) * CosLat4(e.lat[a])) \div 10000, 4)
             \/ ~Close(o.sw4[a], o.irr4[a], 1)
         THEN {"CosLat|node_weights(irrigation)"} ELSE {})
+  \cup (IF \E a \in 1..n : ~Close(o.back4[a], CosLat4(e.lat[a]), 2) THEN {"CosLat|node_weights(type requested again)"} ELSE {})
+  \cup (IF ~Close(o.backtot4, SumN(LAMBDA a : o.back4[a], 1, n), n + 2) THEN {"Consistent|total_node_weight(type requested again)"} ELSE {})
   \cup (IF ~Close(o.tot4, SumN(LAMBDA a : o.w4[a], 1, n), n + 2)
             \/ ~Close(o.mean4 * n, SumN(LAMBDA a : o.w4[a], 1, n), 2 * n + 2)
         THEN {"Consistent|total_node_weight(surface)"} ELSE {})
